@@ -11,6 +11,7 @@ import (
 	"io"
 	"os"
 	"path/filepath"
+	"runtime"
 	"sync"
 	"sync/atomic"
 	"testing"
@@ -20,7 +21,7 @@ import (
 func TestVerifC12(t *testing.T) {
 	vfMain(t, vfCheck{
 		ID: "C12", Level: "exploration",
-		Rule: "even units: seeded sequences (25-60 calls) of Read/Write/ReadAt/WriteAt/Seek (all whence values incl. invalid, negative results)/ReadFrom/WriteTo/Truncate/Stat with lengths around P and P*C, stepped against a sequential (offset, content) model under every combination of UseConcurrentReads x UseConcurrentWrites x UseFstat, both servers; after EVERY call Seek(0,SeekCurrent) must equal the model offset. Then Close and every method must return os.ErrClosed. Odd units: Close racing 2-8 goroutines looping over ReadAt/WriteAt/Stat/Truncate/Chmod through a reorder proxy with delays; a tap on the client->server stream checks exactly one CLOSE per handle and no packet carrying the handle after it. A class is (call kind, option set, length class) resp. (race shape).",
+		Rule:        "even units: seeded sequences (25-60 calls) of Read/Write/ReadAt/WriteAt/Seek (all whence values incl. invalid, negative results)/ReadFrom/WriteTo/Truncate/Stat with lengths around P and P*C, stepped against a sequential (offset, content) model under every combination of UseConcurrentReads x UseConcurrentWrites x UseFstat, both servers; after EVERY call Seek(0,SeekCurrent) must equal the model offset. Then Close and every method must return os.ErrClosed. Odd units: Close racing 2-8 goroutines looping over ReadAt/WriteAt/Stat/Truncate/Chmod through a reorder proxy with delays; a tap on the client->server stream checks exactly one CLOSE per handle and no packet carrying the handle after it. A class is (call kind, option set, length class) resp. (race shape).",
 		Assumptions: []string{"(n>0, io.EOF) and (n>0, nil) are the same outcome for Read (io.Reader allows both)", "race detector on"},
 		Units: func(tier vfTier, seed uint64) int {
 			if tier == vfThorough {
@@ -34,7 +35,7 @@ func TestVerifC12(t *testing.T) {
 			}
 			return 8
 		},
-		Floors: map[string]int64{"calls_stepped": 2000, "close_races": 100, "closed_method_checks": 150, "races_where_close_overlapped_calls": 30, "call_kinds": 9},
+		Floors: map[string]int64{"calls_stepped": 2000, "close_races": 300, "closed_method_checks": 150, "races_where_close_overlapped_calls": 30, "call_kinds": 9},
 		Run:    c12Run,
 	})
 }
@@ -399,14 +400,14 @@ func c12CloseRaces(u *vfUnit) {
 	} else {
 		dir = u.TempDir()
 	}
-	hooks := vfInstallHooks(vfHookCfg{Seed: r.Uint64(), NoLog: true, MaxSleepUs: 150, DelayPct: map[int]int{vhCliAfterRegister: 30, vhCliBeforeDeliver: 30, vhSrvWorker: 20, vhRsWorker: 20}})
+	hooks := vfInstallHooks(vfHookCfg{Seed: r.Uint64(), NoLog: true, MaxSleepUs: 250, DelayPct: map[int]int{vhCliAfterRegister: 50, vhCliBeforeDeliver: 30, vhSrvWorker: 20, vhRsWorker: 20}})
 	defer hooks.Uninstall()
 	sess, _, err := vfConnectProxied(sc, 2+r.Intn(6), r.Fork(), MaxPacketUnchecked(P), MaxConcurrentRequestsPerFile(1+r.Intn(4)), UseConcurrentWrites(i%2 == 0))
 	if err != nil {
 		u.Inconclusive("connect: %v", err)
 		return
 	}
-	for ri := 0; ri < 8; ri++ {
+	for ri := 0; ri < 30; ri++ {
 		p := fmt.Sprintf("/r%d", ri)
 		if kind == vfOS {
 			p = filepath.Join(dir, fmt.Sprintf("r%d", ri))
@@ -491,9 +492,11 @@ func c12CloseRaces(u *vfUnit) {
 				}
 			}(g)
 		}
-		// let the loops run a little, then close (twice, concurrently)
-		for k := 0; k < 1+r.Intn(40); k++ {
-			time.Sleep(50 * time.Microsecond)
+		// let the loops run until a seeded number of calls has been started, then close at once
+		// (twice, concurrently): Close always lands while calls are in progress
+		threshold := int32(1 + r.Intn(40))
+		for spin := 0; startedBeforeClose.Load() < threshold && spin < 200000; spin++ {
+			runtime.Gosched()
 		}
 		var e1, e2 error
 		var cwg sync.WaitGroup
